@@ -468,3 +468,52 @@ Check only_matching_multi_line_records :
     = w_out w ++ concat (om_block_records cfg env path sk (block_lines env sk) 0) /\
     length (om_block_records cfg env path sk (block_lines env sk) 0)
     = list_sum (map (pieces_of env sk (block_lines env sk)) (k_matches sk)).
+
+(* the source tie (DESIGN §4.2): the definitions of Gen/DecisionsLib.v are regenerated on every run from the
+   current text of crates/printer/src/summary.rs (SummaryKind::{requires_path, requires_stats, quit_early},
+   SummarySink::should_quit) and crates/printer/src/standard.rs (StandardSink::{should_quit,
+   match_more_than_limit}); they equal the model definitions for all arguments. *)
+From RG Require Gen.DecisionsLib Proofs.GenLibProofs.
+Theorem requires_path_generated_eq_model : forall k : skind,
+  DecisionsLib.requires_path k = Summary.requires_path k.
+Proof. exact GenLibProofs.requires_path_eq. Qed.
+Print Assumptions requires_path_generated_eq_model.
+Theorem requires_stats_generated_eq_model : forall k : skind,
+  DecisionsLib.requires_stats k = Summary.requires_stats k.
+Proof. exact GenLibProofs.requires_stats_eq. Qed.
+Print Assumptions requires_stats_generated_eq_model.
+Theorem quit_early_generated_eq_model : forall k : skind,
+  DecisionsLib.quit_early k = Summary.quit_early k.
+Proof. exact GenLibProofs.quit_early_eq. Qed.
+Print Assumptions quit_early_generated_eq_model.
+Theorem summary_should_quit_generated_eq_model : forall (cfg : sconfig) (match_count : nat),
+  DecisionsLib.summary_should_quit (sc_max cfg) match_count = Summary.ss_should_quit cfg match_count.
+Proof. exact GenLibProofs.summary_should_quit_eq. Qed.
+Print Assumptions summary_should_quit_generated_eq_model.
+Theorem standard_should_quit_generated_eq_model : forall (cfg : stdconfig) (match_count after_rem : nat),
+  DecisionsLib.standard_should_quit (st_max cfg) match_count after_rem
+  = Standard.sd_should_quit cfg match_count after_rem.
+Proof. exact GenLibProofs.standard_should_quit_eq. Qed.
+Print Assumptions standard_should_quit_generated_eq_model.
+Theorem match_more_than_limit_generated_eq_model : forall (cfg : stdconfig) (match_count : nat),
+  DecisionsLib.match_more_than_limit (st_max cfg) match_count = Standard.sd_more_than_limit cfg match_count.
+Proof. exact GenLibProofs.match_more_than_limit_eq. Qed.
+Print Assumptions match_more_than_limit_generated_eq_model.
+Check quit_early_generated_eq_model : forall k : skind, DecisionsLib.quit_early k = Summary.quit_early k.
+Check summary_should_quit_generated_eq_model : forall (cfg : sconfig) (match_count : nat),
+  DecisionsLib.summary_should_quit (sc_max cfg) match_count = Summary.ss_should_quit cfg match_count.
+Check standard_should_quit_generated_eq_model : forall (cfg : stdconfig) (match_count after_rem : nat),
+  DecisionsLib.standard_should_quit (st_max cfg) match_count after_rem
+  = Standard.sd_should_quit cfg match_count after_rem.
+
+(* the same tie for crates/printer/src/json.rs JSONSink::{should_quit, match_more_than_limit} (Model/Json.v) *)
+From RG Require Model.Json.
+Theorem json_should_quit_generated_eq_model : forall (cfg : Json.jconfig) (match_count after_rem : nat),
+  DecisionsLib.json_should_quit (Json.j_max cfg) match_count after_rem
+  = Json.js_should_quit cfg match_count after_rem.
+Proof. exact GenLibProofs.json_should_quit_eq. Qed.
+Print Assumptions json_should_quit_generated_eq_model.
+Theorem json_match_more_than_limit_generated_eq_model : forall (cfg : Json.jconfig) (match_count : nat),
+  DecisionsLib.json_match_more_than_limit (Json.j_max cfg) match_count = Json.js_more_than_limit cfg match_count.
+Proof. exact GenLibProofs.json_match_more_than_limit_eq. Qed.
+Print Assumptions json_match_more_than_limit_generated_eq_model.
